@@ -232,11 +232,53 @@ def make_world(g, tag):
     return w
 
 
+def escaped_key_worlds():
+    """a member name that the document writes with a JSON escape (`"caf\\u00e9"`, `"R\\u0026D"` - what encoding/json
+    and many producers emit) and that the mask names plainly (`café`, `R&D`): the mask applies - two documents that
+    differ only there store the same snapshot, also with ErrOnMissingPath(false) - and a difference elsewhere is
+    still reported"""
+    worlds = []
+    k = 0
+    for name, esc_name in (('caf\u00e9', 'caf\\u00e9'), ('R&D', 'R\\u0026D'), ('a<b', 'a\\u003cb')):
+        for kind in ('json', 'sajson'):
+            for eom in (True, False):
+                for mk in ('any', 'type', 'custom'):
+                    k += 1
+                    da = '{"id": 1, "%s": "first value", "z": "end"}' % esc_name
+                    db = '{"id": 1, "%s": "second value", "z": "end"}' % esc_name
+                    dc = '{"id": 2, "%s": "first value", "z": "end"}' % esc_name
+                    mt = {'any': docs.any_matcher([name], None, eom), 'type': docs.type_matcher([name], 'string', eom),
+                          'custom': docs.custom_matcher(name, True, '"custom placeholder"', eom)}[mk]
+                    w = World('c16-esckey-%d' % k)
+                    w.add(mode_line(False, ''))
+                    w.add(cfg_line(1, 'snaps', None, None, 'none'))
+                    w.add('begin 1 %s' % hx(b'TestEscKey'))
+                    rec = w.add('%s 1 1 s %s %s' % (kind, hx(da), mt))
+                    w.add('end 1')
+                    w.add(mode_line(True, ''))
+
+                    def cond(f, rec=rec):
+                        def g_(line, raw, ww):
+                            if [e for e, _ in Line(ww.impl[rec]).events] != ['L']:
+                                return 'the document with the escaped member name was not recorded: %r' % [(e, x[:60]) for e, x in Line(ww.impl[rec]).events]
+                            return f(line, raw, ww)
+                        return g_
+                    w.add('begin 2 %s' % hx(b'TestEscKey'))
+                    w.add('%s 1 2 s %s %s' % (kind, hx(db), mt), ('masked-member-with-escaped-name-is-irrelevant', cond(exp_silent)))
+                    w.add('end 2')
+                    w.add('begin 3 %s' % hx(b'TestEscKey'))
+                    w.add('%s 1 3 s %s %s' % (kind, hx(dc), mt), ('unmasked-member-still-relevant', cond(exp_one_error_no_write)))
+                    w.add('end 3')
+                    worlds.append(w)
+    return worlds
+
+
 def run(ctx):
     jsonlens.run_json_lens(ctx)
     g = Gen(ctx.seed * 1000003 + 16)
     docs.STYLE = g.r
     n = 400 if ctx.tier == 'quick' else 10000
     worlds = [make_world(g, 'c16-%d' % i) for i in range(n)]
+    worlds += escaped_key_worlds()
     run_suite(ctx, 'match.masking', worlds, known=None, chunk=500)
     findings.report(ctx, 'C16')
